@@ -36,7 +36,13 @@ def calibrate():
 
 
 def strategy(tier):
-    return Lm.case_st(tier)
+    return Lm.case_st(tier, ivs=True)
+
+
+def in_known_class(fid, spec, failure):
+    if fid == "C11-layout-order-depends-on-uuids":
+        return Lm.multi_interval_growth(Lm.Case(spec))
+    return False
 
 
 def budget(tier):
@@ -92,8 +98,34 @@ def digest_of(spec, variant):
             built.module.symbols.discard(j)
         else:
             built.module.proxies.discard(j)
+    # the address order in which the closing re-layout left the input's byte
+    # intervals is compared separately (clause C11.layout-order); everything
+    # else is compared on the listing order
+    order = []
+    for si, ivs0 in enumerate(built.intervals):
+        if len(ivs0) > 1:
+            k = {id(bi): j for j, bi in enumerate(ivs0)}
+            order.append(",".join(str(k[id(bi)]) for bi in sorted(ivs0, key=lambda b: (b.address is None, b.address or 0))
+                                  if bi.section is not None))
+    if order and len(built.sections) > 1:
+        secs = [sec for sec, _ in built.sections if sec.address is not None]
+        order.append("S" + ",".join(str(secs.index(x)) for x in sorted(secs, key=lambda x: x.address)))
+    Lm.pack_layout(built)
     dump = Ob.canonical_dump(built.ir)
-    return hashlib.blake2b(json.dumps(dump, sort_keys=True, default=str).encode(), digest_size=12).hexdigest()
+    d = hashlib.blake2b(json.dumps(dump, sort_keys=True, default=str).encode(), digest_size=12).hexdigest()
+    return d + ("|L:" + ";".join(order) if order else "")
+
+
+def _judge(out, clause, d0, d, prefix=""):
+    if d == d0:
+        return False
+    if d.startswith("EXC") or d0.startswith("EXC"):
+        out.fail(clause, "exception-differs", f"{prefix}{d0} vs {d}")
+    elif d.split("|")[0] == d0.split("|")[0]:
+        out.fail("C11.layout-order", "interval-order-differs", f"{prefix}{d0} vs {d}", "layout")
+    else:
+        out.fail(clause, "dump-differs", f"{prefix}{d0} vs {d}")
+    return True
 
 
 def _nontrivial(case):
@@ -137,10 +169,7 @@ def worker(rec, tier, shard_seed, n_examples):
         out.classes = c01.classes(case, Lm.Expected(case))
         out.nontrivial = _nontrivial(case)
         for variant in ("base", "perm", "junk"):
-            d = digest_of(spec, variant)
-            if d != d0:
-                kind = "exception-differs" if (d.startswith("EXC") or d0.startswith("EXC")) else "dump-differs"
-                out.fail("C11." + ("repeat" if variant == "base" else variant), kind, f"{d0} vs {d}")
+            _judge(out, "C11." + ("repeat" if variant == "base" else variant), d0, digest_of(spec, variant))
         spec["_base"] = d0
         rec.pending = getattr(rec, "pending", [])
         rec.pending.append((spec, out))
@@ -165,9 +194,7 @@ def worker(rec, tier, shard_seed, n_examples):
         i = by_spec[id(spec)]
         d0 = spec.pop("_base")
         for k, res in enumerate(results):
-            if res[i] != d0:
-                kind = "exception-differs" if (str(res[i]).startswith("EXC") or d0.startswith("EXC")) else "dump-differs"
-                out.fail("C11.hashseed", kind, f"PYTHONHASHSEED variant {k + 1}: {d0} vs {res[i]}")
+            if _judge(out, "C11.hashseed", d0, str(res[i]), f"PYTHONHASHSEED variant {k + 1}: "):
                 break
         rec.record(me, spec, out)
     rec.pending = []
@@ -184,10 +211,7 @@ def evaluate(spec):
         return out
     out.nontrivial = _nontrivial(case)
     for variant in ("base", "perm", "junk"):
-        d = digest_of(spec, variant)
-        if d != d0:
-            kind = "exception-differs" if (d.startswith("EXC") or d0.startswith("EXC")) else "dump-differs"
-            out.fail("C11." + ("repeat" if variant == "base" else variant), kind, f"{d0} vs {d}")
+        _judge(out, "C11." + ("repeat" if variant == "base" else variant), d0, digest_of(spec, variant))
     with tempfile.NamedTemporaryFile("w", suffix=".json", delete=False) as f:
         json.dump([spec], f)
         path = f.name
@@ -196,10 +220,7 @@ def evaluate(spec):
             env = dict(os.environ, PYTHONHASHSEED=str(4242 * k), PYTHONPATH=ROOT)
             p = subprocess.run([sys.executable, "-m", "vp.c11child", path], cwd=ROOT, env=env, capture_output=True, text=True)
             if p.returncode == 0:
-                d = json.loads(p.stdout)[0]
-                if d != d0:
-                    kind = "exception-differs" if (str(d).startswith("EXC") or d0.startswith("EXC")) else "dump-differs"
-                    out.fail("C11.hashseed", kind, f"{d0} vs {d}")
+                if _judge(out, "C11.hashseed", d0, str(json.loads(p.stdout)[0])):
                     break
     finally:
         os.unlink(path)
